@@ -216,15 +216,80 @@ def run_loop_case(case: Dict[str, Any]) -> Outcome:
     return out
 
 
+# ---------------------------------------------------------------------------------------------------------------
+# the two passes through a repeated hour: same wall-clock reading, same tzinfo object, fold 0 and fold 1 - two instants an
+# hour apart.  Both are evaluated in ONE process, one right after the other, each against its own `now`.
+
+
+def fold_pairs() -> Any:
+    return st.fixed_dictionaries({
+        "pair": st.just(True), "zone": st.sampled_from(["Europe/Berlin", "America/New_York", "Australia/Lord_Howe"]),
+        "k": st.integers(0, 60), "into_us": st.integers(0, 1800 * SEC - 1), "order": st.sampled_from([[0, 1], [1, 0]]),
+        "lead_us": st.sampled_from([0, 1, SEC, 5 * SEC + 250_000, 30 * SEC, 55 * SEC + 1, 61 * SEC, -SEC]),
+    })
+
+
+def run_pair_case(case: Dict[str, Any]) -> Outcome:
+    from taskiq.cli.scheduler import run as R
+    from vt.props import c13
+
+    out = Outcome()
+    out.clauses_checked = ["C14.a", "C14.b", "C14.c"]
+    z = zoneinfo.ZoneInfo(case["zone"])
+    falls = []
+    for tr in c13.transitions(case["zone"]):
+        if N0 <= tr <= N1:
+            before = clock.from_us(tr - 1).astimezone(z).utcoffset()
+            after = clock.from_us(tr).astimezone(z).utcoffset()
+            if before is not None and after is not None and after < before:
+                falls.append((tr, int((before - after).total_seconds()) * SEC))
+    if not falls:
+        out.classes = ["fold_pair", "no_fall_back_found"]
+        return out
+    tr, rep = falls[case["k"] % len(falls)]
+    into = case["into_us"] % rep
+    inst = [tr - rep + into, tr + into]                      # first pass, second pass: same wall clock reading
+    Ts = [clock.from_us(t).astimezone(z) for t in inst]
+    if Ts[0].replace(fold=0) != Ts[1].replace(fold=0) or (Ts[0].fold, Ts[1].fold) != (0, 1) or Ts[0].tzinfo is not Ts[1].tzinfo:
+        out.classes = ["fold_pair", "skipped_not_a_pair"]
+        return out
+    clock.install()
+    try:
+        for i in case["order"]:
+            t = inst[i]
+            n = t - case["lead_us"]
+            clock.FakeDT.cur = clock.from_us(n)
+            clock.FakeDT.source = None
+            got = R.get_task_delay(ScheduledTask(task_name="t", labels={}, args=[], kwargs={}, time=Ts[i]))
+            horizon = (n // MIN + 1) * MIN + SEC
+            desc = f"T={Ts[i].isoformat()} fold={Ts[i].fold} (= {clock.from_us(t).isoformat()}) evaluated at now={clock.from_us(n).isoformat()} as #{case['order'].index(i) + 1} of the pair"
+            if t <= n:
+                if got != 0:
+                    out.add("C14.a", f"{desc}: T is not in the future but delay={got!r}")
+            elif t > horizon:
+                if got is not None:
+                    out.add("C14.b", f"{desc}: T lies beyond the poll horizon but delay={got!r}")
+            elif type(got) is not int or not (t <= n + got * SEC < t + SEC):
+                out.add("C14.c", f"{desc}: delay={got!r}, expected d with T <= now + d < T + 1 s")
+    finally:
+        clock.uninstall()
+    out.nontrivial = True
+    out.classes = ["fold_pair", "zone:" + case["zone"]]
+    return out
+
+
 _base_parts, _base_run = parts, run_case
 
 
 def parts(tier: str) -> List[Part]:  # type: ignore[no-redef]
     n = 2500 if tier == "thorough" else 200
-    return _base_parts(tier) + [Part("loop_runs", "given", shards=8, examples=n, strategy=loop_runs, soft_deadline_s=1500 if tier == "thorough" else 100)]
+    return _base_parts(tier) + [Part("loop_runs", "given", shards=8, examples=n, strategy=loop_runs, soft_deadline_s=1500 if tier == "thorough" else 100),
+                                Part("fold_pairs", "given", shards=2, examples=20000 if tier == "thorough" else 1500, strategy=fold_pairs, soft_deadline_s=900 if tier == "thorough" else 100)]
 
 
 def run_case(case: Dict[str, Any]) -> Outcome:  # type: ignore[no-redef]
+    if case.get("pair"):
+        return run_pair_case(case)
     return run_loop_case(case) if case.get("loop") else _base_run(case)
 
 
